@@ -459,7 +459,8 @@ def parallel_lines(cmd, lines, nchunks=None, timeout=1800):
     for i, (o, r, e) in enumerate(res):
         if r != 0 and rc == 0:
             rc, err = r, e
-            # keep alignment: record how far this chunk got
+        if len(o) < len(parts[i]):
+            # keep alignment with the inputs for EVERY chunk that stopped early
             o = o + ["<crash>"] * (len(parts[i]) - len(o))
         out += o
     return out, rc, err
